@@ -121,26 +121,29 @@ example : canonSpec 2 false (([97, 99, 103, 116] : Bytes).map plain) = [1, 6, 1]
 
 /-! ## De Bruijn graph
 
-Proved here: the weights for reads without ambiguity code (`push_weights_partial`).  **Not proved in Lean**
-(tied to the real code by the correspondence check and checked on the real code by the oracle of
-`harness/c19.go` — weights over IUPAC expansions, Kahn elimination for cycles, brute force over all walks and
-dynamic programming for the heaviest walk — on every run):
+Vocabulary (`Lemmas/DeBruijnGraph.lean`):
+* `g.keys` the nodes (the k-mer words present in the map); `g.weight x` the weight of `x` (`Weight`);
+* `g.Edge x y` : `y` is one of the nodes returned by `Nexts(x)`; `edge_iff`: under `g.WF`, `x` and `y` are nodes and
+  the last `k-1` bases of `x` are the first `k-1` bases of `y` (`y / 4 = x % 4^(k-1)`);
+* `g.Walk p` : `p` is a list of nodes, consecutive ones linked by `Edge`; `g.Cyclic` : a walk `x :: (p ++ [x])` exists;
+* `g.IsSource x` : a node that no edge enters; `mem_heads_iff`: under `g.WF`, exactly the members of `Heads()`;
+* `g.pathWeight p` : sum of the weights of the nodes of `p`; `g.totalWeight` : sum of all the weights;
+* `g.WF` : the parameters are those of `MakeDeBruijnGraph(k)` with `1 ≤ k ≤ 32` and every node is a word of `k`
+  bases — true of every graph built by `MakeDeBruijnGraph` and `Push` (`wf_pushes`);
+* `readings win` : the digit lists obtained by choosing one nucleotide of `iupac b` (generated table
+  `Gen.kmerIupac`) for every byte `b` of the window; `kmerReadings win` their words; `winCount k x s` : the number
+  of windows of `k` bytes of `s` one of whose readings is `x`; `validPrefix s` : `s` up to the first byte outside
+  the IUPAC table (`Push` stops enumerating there; such bytes are outside the contract).
 
-* full `push_weights`: for reads with ambiguity codes,
-  `weight x = Σ_reads count × #{windows i | x ∈ IUPAC expansions of window i}`;
-* `heaviest_is_walk`, `heaviest_optimal` (`g.hasCycle = some false → g.heaviestPath fuel = .path p →
-  p is a walk of g from a head ∧ ∀ walk q from a head, weight q ≤ weight p`), termination within the fuel;
-* `none_iff_cycle` beyond the definitional part below: `g.hasCycle = some true ↔ g has a cycle`
-  (correctness of the depth-first search);
-* `single_read_roundtrip`.  As stated in the property ("a single sequence without repeated k-mer is returned
-  unchanged") it is **false** of the code: a repeated (k-1)-mer already closes a cycle in a graph that only
-  stores nodes (`roundtrip_counterexample` below, finding `roundtrip.repeated-k-1-mer`). -/
+Proved for every graph / every list of reads: `push_weights` (ambiguity codes included), `hasCycle_iff`,
+`heaviest_is_walk`, `heaviest_terminates`, `heaviest_optimal`, `none_iff_cycle`, `single_read_roundtrip`.
+Two statements of the property are false of the model (and of the code) without a side condition, each with its
+counterexample: optimality needs positive weights (`optimal_zero_weight_counterexample`: a read pushed with count
+0), the round trip needs "no repeated (k-1)-mer" (`roundtrip_counterexample`). -/
 
 /-- `winSpec val k (s.map plain)` lists the k-mer words of the windows of `k` plain bases of `s`, in order
-(`val` = the 2-bit-per-base word).  For every `k` with `1 ≤ k ≤ 32`, every list of reads made of plain bases
-(a, c, g, t, u; any length: shorter than, equal to, longer than `k`) with their counts, and every word `x`: the
-weight of `x` in the graph is the sum over the reads of count × number of occurrences.  Partial: reads with
-ambiguity codes are not covered by this theorem. -/
+(`val` = the 2-bit-per-base word).  Special case of `push_weights` for reads made of plain bases (a, c, g, t, u):
+the weight of `x` is the sum over the reads of count × number of occurrences. -/
 theorem push_weights_partial (k : Nat) (hk : 1 ≤ k) (h2 : 2 * k ≤ 64) (reads : List (Bytes × Nat))
     (hp : ∀ r ∈ reads, ∀ b ∈ r.1, (plain b).isSome) (x : Nat) :
     (reads.foldl (fun g r => g.push r.1 r.2) (makeGraph k)).weight x
@@ -167,8 +170,38 @@ theorem push_weights_partial (k : Nat) (hk : 1 ≤ k) (h2 : 2 * k ≤ 64) (reads
 example : ∀ r ∈ ([([97, 99, 103, 116], 3), ([99, 103, 116], 2)] : List (Bytes × Nat)), ∀ b ∈ r.1, (plain b).isSome := by
   decide
 
-/-- `HaviestPath` returns nil exactly when `HasCycle` answers true (definitional part of `none_iff_cycle`:
-whenever the cycle detection terminates within its fuel) -/
+/-- **Weights, in full.**  For every `k` with `1 ≤ k ≤ 32`, every list of pushed reads with their counts (any
+bytes, any length — shorter than, equal to, longer than `k` —, ambiguity codes included) and every word `x`: the
+weight of `x` in the graph is the sum over the reads of count × the number of windows of `k` bytes of the read
+one of whose IUPAC readings is `x`.  (A window whose `n` readings include `x` counts once, whatever `n`; the read
+is cut at the first byte outside the IUPAC table, see `push_weights_iupac`.) -/
+theorem push_weights (k : Nat) (hk : 1 ≤ k) (h2 : k ≤ 32) (reads : List (Bytes × Nat)) (x : Nat) :
+    (reads.foldl (fun g r => g.push r.1 r.2) (makeGraph k)).weight x
+      = (reads.map fun r => r.2 * winCount k x (validPrefix r.1)).sum :=
+  pushes_weight k hk (by omega) reads x
+
+/-- the same for reads made of IUPAC letters only (a c g t u r y s w k m b d h v n): no cut -/
+theorem push_weights_iupac (k : Nat) (hk : 1 ≤ k) (h2 : k ≤ 32) (reads : List (Bytes × Nat))
+    (hv : ∀ r ∈ reads, ∀ b ∈ r.1, iupac b.toNat ≠ []) (x : Nat) :
+    (reads.foldl (fun g r => g.push r.1 r.2) (makeGraph k)).weight x
+      = (reads.map fun r => r.2 * winCount k x r.1).sum := by
+  rw [push_weights k hk h2]
+  congr 1
+  apply List.map_congr_left
+  intro r hr
+  rw [validPrefix_of_iupac r.1 (hv r hr)]
+
+/-- the hypothesis is satisfiable on reads with ambiguity codes ("ancg", "rcgty") -/
+example : ∀ r ∈ ([([97, 110, 99, 103], 2), ([114, 99, 103, 116, 121], 3)] : List (Bytes × Nat)),
+    ∀ b ∈ r.1, iupac b.toNat ≠ [] := by decide
+
+/-- test (sample input): on these two reads, k = 3, the word 6 (acg) is a reading of one window of each read
+(a[n]cg ∋ acg; [r]cg ∋ acg): weight 2 + 3 -/
+example : (([([97, 110, 99, 103], 2), ([114, 99, 103, 116, 121], 3)] : List (Bytes × Nat)).foldl
+      (fun g r => g.push r.1 r.2) (makeGraph 3)).weight 6 = 5 ∧
+    winCount 3 6 [97, 110, 99, 103] = 1 ∧ winCount 3 6 [114, 99, 103, 116, 121] = 1 := by decide
+
+/-- `HaviestPath` returns nil exactly when `HasCycle` answers true (definitional part of `none_iff_cycle`) -/
 theorem nil_iff_hasCycle (g : Graph) (fuel : Nat) (b : Bool) (h : g.hasCycle = some b) :
     g.heaviestPath fuel = .nil ↔ b = true := by
   unfold Graph.heaviestPath
@@ -193,6 +226,105 @@ theorem nil_iff_hasCycle (g : Graph) (fuel : Nat) (b : Bool) (h : g.hasCycle = s
         · split
           · simp
           · exact ih _ _
+
+/-- **Correctness of the depth-first cycle detection**, for every graph value (no hypothesis): `HasCycle` always
+answers (the recursion depth never exceeds the number of nodes: the fuel of the model is never exhausted),
+and it answers true iff the graph has a directed cycle. -/
+theorem hasCycle_iff (g : Graph) :
+    (g.hasCycle = some true ↔ g.Cyclic) ∧ (g.hasCycle = some false ↔ ¬ g.Cyclic) ∧ g.hasCycle ≠ none := by
+  rcases hasCycle_spec g with ⟨h1, h2⟩ | ⟨h1, h2⟩
+  · rw [h1]; simp [h2]
+  · rw [h1]; simp [h2]
+
+/-- both sides of `hasCycle_iff` occur: "aca", k = 2 is cyclic (walk ac → ca → ac), "acgtcag", k = 3 is not -/
+example : ((makeGraph 2).push [97, 99, 97] 1).Cyclic ∧ ¬ ((makeGraph 3).push [97, 99, 103, 116, 99, 97, 103] 2).Cyclic :=
+  ⟨((hasCycle_iff _).1).mp (by decide), ((hasCycle_iff _).2.1).mp (by decide)⟩
+
+/-- **The returned path is a walk from a source**: whenever `HaviestPath` returns a path (any fuel), it is a
+non-empty list of nodes, consecutive ones linked by `Nexts`, and its first node belongs to `Heads()`, i.e. has no
+predecessor. -/
+theorem heaviest_is_walk (g : Graph) (hwf : g.WF) (fuel : Nat) (p : List Nat)
+    (h : g.heaviestPath fuel = .path p) :
+    g.Walk p ∧ ∃ s t, p = s :: t ∧ s ∈ g.heads ∧ g.IsSource s :=
+  heaviestPath_is_walk g hwf fuel p h
+
+/-- **Termination**: on a graph without cycle the label-correcting loop ends, and the path reconstruction too, as
+soon as the fuel is at least `g.hpBound = n × totalWeight + n` (`n` nodes): every queue insertion strictly
+increases a label, and every label is the weight of a walk, hence at most `totalWeight`.  The outcome is then a
+path or the `log.Panicf` outcome, never "out of fuel"/hang and never nil; it is a path when the graph is not empty
+and the weights are positive.  (The driver hands 2 000 000 to the model: enough whenever `hpBound ≤ 2 000 000`;
+the loop itself has no fuel in the Go code.) -/
+theorem heaviest_terminates (g : Graph) (hwf : g.WF) (hc : ¬ g.Cyclic) (fuel : Nat) (hf : g.hpBound ≤ fuel) :
+    g.heaviestPath fuel ≠ .fuel ∧ g.heaviestPath fuel ≠ .nil ∧
+    (g.nodes ≠ [] → (∀ x ∈ g.keys, 0 < g.weight x) → ∃ p, g.heaviestPath fuel = .path p) :=
+  heaviestPath_terminates g hwf hc fuel hf
+
+/-- **Optimality**: when the weights are positive (read counts ≥ 1: `pushes_pos`) and `HaviestPath` returns a
+path, no walk starting at a node without predecessor has a larger total weight.  (Fixed-point certificate: when
+the queue is empty every edge out of a labelled node is relaxed, every label is the weight of a walk, and the
+label of the returned end node is the largest one and is the weight of the returned path.) -/
+theorem heaviest_optimal (g : Graph) (hwf : g.WF) (hpos : ∀ x ∈ g.keys, 0 < g.weight x) (fuel : Nat)
+    (p : List Nat) (h : g.heaviestPath fuel = .path p) :
+    ∀ s t, g.IsSource s → g.Walk (s :: t) → g.pathWeight (s :: t) ≤ g.pathWeight p :=
+  heaviestPath_optimal g hwf hpos fuel p h
+
+/-- the hypotheses of `heaviest_is_walk`, `heaviest_terminates`, `heaviest_optimal` hold for every graph built by
+`MakeDeBruijnGraph(k)`, `1 ≤ k ≤ 32`, and pushes of reads of count ≥ 1 -/
+theorem hypotheses_of_pushes (k : Nat) (hk : 1 ≤ k) (h2 : k ≤ 32) (reads : List (Bytes × Nat))
+    (hc : ∀ r ∈ reads, 1 ≤ r.2) :
+    (reads.foldl (fun g r => g.push r.1 r.2) (makeGraph k)).WF ∧
+    ∀ x ∈ (reads.foldl (fun g r => g.push r.1 r.2) (makeGraph k)).keys,
+      0 < (reads.foldl (fun g r => g.push r.1 r.2) (makeGraph k)).weight x :=
+  ⟨wf_pushes k hk h2 reads, pushes_pos k reads hc⟩
+
+/-- non-vacuity: on the graph of "acgtcag" (count 2) and "acgta" (count 1), k = 3 — a branch at cgt — the fuel
+100 is above the bound and a path is returned -/
+example : ((([([97, 99, 103, 116, 99, 97, 103], 2), ([97, 99, 103, 116, 97], 1)] : List (Bytes × Nat)).foldl
+      (fun g r => g.push r.1 r.2) (makeGraph 3)).hpBound ≤ 100) ∧
+    (([([97, 99, 103, 116, 99, 97, 103], 2), ([97, 99, 103, 116, 97], 1)] : List (Bytes × Nat)).foldl
+      (fun g r => g.push r.1 r.2) (makeGraph 3)).heaviestPath 100 = .path [6, 27, 45, 52, 18] := by decide
+
+/-- counterexample to optimality without "positive weights": "acgt" pushed with count 0, "gta" with count 5,
+"cat" with count 1, k = 3.  The graph has no cycle; acg (6) is a head and acg → cgt → gta is a walk of weight 5,
+but the label 0 of acg never makes the test `dist[next] < weight + dist[cur]` succeed on cgt (weight 0): cgt
+and gta are never reached and the path returned is [cat], of weight 1. -/
+theorem optimal_zero_weight_counterexample :
+    let g := ([([97, 99, 103, 116], 0), ([103, 116, 97], 5), ([99, 97, 116], 1)] : List (Bytes × Nat)).foldl
+      (fun g r => g.push r.1 r.2) (makeGraph 3)
+    g.hasCycle = some false ∧ g.heaviestPath 100 = .path [19] ∧ g.pathWeight [19] = 1 ∧
+      6 ∈ g.heads ∧ 27 ∈ g.succ 6 ∧ 44 ∈ g.succ 27 ∧ g.pathWeight [6, 27, 44] = 5 := by decide
+
+/-- **nil iff cycle**, in full: for every graph value and every fuel, `HaviestPath` returns nil exactly when the
+graph has a directed cycle. -/
+theorem none_iff_cycle (g : Graph) (fuel : Nat) : g.heaviestPath fuel = .nil ↔ g.Cyclic := by
+  rcases hasCycle_spec g with ⟨h1, h2⟩ | ⟨h1, h2⟩
+  · have := nil_iff_hasCycle g fuel true h1
+    simp [this, h2]
+  · have := nil_iff_hasCycle g fuel false h1
+    simp [this, h2]
+
+/-- **Round trip of a single read**: for `2 ≤ k ≤ 32`, a single read over a, c, g, t of at least `k` bases, pushed
+with a count ≥ 1, in which no window of `k-1` bases occurs twice, is returned unchanged by `LongestConsensus`
+(fuel above the bound of `heaviest_terminates`).  "No repeated k-mer", as the property says, is not enough:
+`roundtrip_counterexample`. -/
+theorem single_read_roundtrip (k : Nat) (hk : 2 ≤ k) (h32 : k ≤ 32) (s : Bytes) (w : Nat) (hw : 1 ≤ w)
+    (hs : ∀ b ∈ s, b = 97 ∨ b = 99 ∨ b = 103 ∨ b = 116) (hl : k ≤ s.length)
+    (hn : (windowsAll (k - 1) s).Nodup) (fuel : Nat) (hf : ((makeGraph k).push s w).hpBound ≤ fuel) :
+    ((makeGraph k).push s w).longestConsensus fuel = .seq s := by
+  rw [single_read_consensus k hk h32 s w hw (plain_acgt s hs) hl (windows_digit_nodup (k - 1) s hs hn) fuel hf,
+    decode_digit_acgt s hs]
+
+/-- the same for any plain bases (u allowed: it comes back as t), the windows being compared on the 2-bit codes -/
+theorem single_read_roundtrip_plain (k : Nat) (hk : 2 ≤ k) (h32 : k ≤ 32) (s : Bytes) (w : Nat) (hw : 1 ≤ w)
+    (hp : ∀ b ∈ s, (plain b).isSome) (hl : k ≤ s.length) (hn : (windowsAll (k - 1) (s.map digit)).Nodup)
+    (fuel : Nat) (hf : ((makeGraph k).push s w).hpBound ≤ fuel) :
+    ((makeGraph k).push s w).longestConsensus fuel = .seq ((s.map digit).map decode) :=
+  single_read_consensus k hk h32 s w hw hp hl hn fuel hf
+
+/-- the hypotheses of `single_read_roundtrip` are satisfiable: "acgtcag", k = 3, count 2, fuel 100 -/
+example : (∀ b ∈ ([97, 99, 103, 116, 99, 97, 103] : Bytes), b = 97 ∨ b = 99 ∨ b = 103 ∨ b = 116) ∧
+    (windowsAll (3 - 1) ([97, 99, 103, 116, 99, 97, 103] : Bytes)).Nodup ∧
+    ((makeGraph 3).push [97, 99, 103, 116, 99, 97, 103] 2).hpBound ≤ 100 := by decide
 
 /-- test (sample input): the single read "acgtcag", k = 3, count 2 comes back unchanged -/
 example : ((makeGraph 3).push [97, 99, 103, 116, 99, 97, 103] 2).longestConsensus 100
